@@ -6,7 +6,6 @@ From V Require Import Base.Int Base.IntLemmas Base.IO Base.Table Gen.DateTables 
 Import ListNotations.
 Open Scope Z_scope.
 Ltac Zify.zify_post_hook ::= Z.to_euclidean_division_equations.
-Set Default Timeout 300.
 
 Definition not_bad (v : verdict) : Prop := match v with JBad _ => False | _ => True end.
 
